@@ -7,6 +7,8 @@ import json
 import logging
 import os
 import shutil
+import time
+import traceback
 import warnings
 from pathlib import Path
 
@@ -41,6 +43,42 @@ ERR_CODE = {"IndexError": 1, "ValueError": 2, "NotImplementedError": 3}
 def fixture_metas():
     root = common.REPO / "src" / "tests" / "fixtures"
     return sorted(glob.glob(str(root / "**" / "*.meta"), recursive=True))
+
+
+def meta_facts(text):
+    """What the harness itself needs from a meta text (parsed here, not with the code under test):
+    nc, fs, probe generation code of the Coq model, site-map encoding + table, NP2.4_shank, maxint."""
+    import re
+    kv = {}
+    for line in text.splitlines():
+        if "=" in line:
+            k, v = line.split("=", 1)
+            kv[k.replace("~", "")] = v.strip()
+    imec = kv.get("typeThis") == "imec"
+    fs = float(kv["imSampRate"] if imec else kv["niSampRate"])
+    if "typeEnabled" in kv:
+        gen = 0                                   # 3A
+    else:
+        try:
+            pt = int(float(kv.get("imDatPrb_type", "")))
+        except ValueError:
+            pt = None
+        gen = {0: 0, 21: 1, 1030: 1, 24: 2, 2013: 2, 1100: 3}.get(pt, -1)
+    if "snsShankMap" in kv:
+        enc, txt = 0, kv["snsShankMap"]
+    elif "snsGeomMap" in kv:
+        enc, txt = 1, kv["snsGeomMap"]
+    else:
+        enc, txt = 2, ""
+    sites = [[int(float(x)) for x in m.split(":")]
+             for m in re.findall(r"([0-9]+:[0-9]+:[0-9]+:[0-9]+)", txt)]
+    split = int(float(kv["NP2.4_shank"])) if "NP2.4_shank" in kv else -1
+    if imec:
+        maxint = int(float(kv["imMaxInt"])) if "imMaxInt" in kv else 512
+    else:
+        maxint = int(float(kv.get("imMaxInt", 32768)))
+    return {"nc": int(float(kv["nSavedChans"])), "fs": fs, "gen": gen, "enc": enc, "sites": sites,
+            "split": split, "maxint": maxint}
 
 
 def patch_meta_text(text, ns, nc, fs):
@@ -278,20 +316,101 @@ def n_selected(s, n):
 # implementation runner / canonicaliser
 # --------------------------------------------------------------------------
 def observe(f):
+    """Outcome of an implementation call, canonicalised; nothing in here can raise."""
     try:
         with warnings.catch_warnings():
             warnings.simplefilter("ignore")
             r = f()
     except Exception as e:      # noqa
         return ("err", type(e).__name__)
-    if r is None:
-        return ("none",)
-    if isinstance(r, tuple):    # read_samples / read(sync=True): (data, sync)
-        r = r[0]
-    a = np.asarray(r)
-    if a.dtype != np.float32:
-        return ("ok", tuple(a.shape), str(a.dtype), None)
-    return ("ok", tuple(a.shape), "float32", np.ascontiguousarray(a).reshape(-1).view(np.uint32).copy())
+    try:
+        if r is None:
+            return ("none",)
+        if isinstance(r, tuple):    # read_samples / read(sync=True): (data, sync)
+            if len(r) != 2:
+                return ("ok", (), "tuple of %d" % len(r), None)
+            r = r[0]
+        if not isinstance(r, (np.ndarray, np.generic)):
+            return ("ok", (), "not an ndarray: " + type(r).__name__, None)
+        a = np.asarray(r)
+        if a.dtype != np.float32:
+            return ("ok", tuple(a.shape), str(a.dtype), None)
+        return ("ok", tuple(a.shape), "float32", np.ascontiguousarray(a).reshape(-1).view(np.uint32).copy())
+    except Exception as e:      # noqa
+        return ("ok", (), "uncanonicalisable result (%s: %s)" % (type(e).__name__, e), None)
+
+
+class ImplProblem(Exception):
+    """An attribute of the reader is missing / raises / has an unexpected type or shape."""
+
+
+def snapshot(sr, rec):
+    """Every attribute of the reader the harness looks at, read once, validated, converted to
+    plain values.  Raises ImplProblem (turned into a property failure by the caller)."""
+    def get(name, f):
+        try:
+            with warnings.catch_warnings():
+                warnings.simplefilter("ignore")
+                return f()
+        except Exception as e:      # noqa
+            raise ImplProblem("reader.%s raised %s: %s" % (name, type(e).__name__, e))
+
+    def vec(name, v, n, kinds):
+        if not isinstance(v, np.ndarray):
+            raise ImplProblem("reader.%s is %s, not an ndarray" % (name, type(v).__name__))
+        if v.ndim != 1 or v.shape[0] != n:
+            raise ImplProblem("reader.%s has shape %s, expected (%d,)" % (name, v.shape, n))
+        if v.dtype.kind not in kinds:
+            raise ImplProblem("reader.%s has dtype %s" % (name, v.dtype))
+        return v
+    snap = {}
+    for name in ("ns", "nc"):
+        v = get(name, lambda: getattr(sr, name))
+        if isinstance(v, bool) or not isinstance(v, (int, np.integer)):
+            raise ImplProblem("reader.%s is %r, not an int" % (name, v))
+        snap[name] = int(v)
+    if (snap["ns"], snap["nc"]) != (rec.ns, rec.nc):
+        raise ImplProblem("reader shape %s differs from the file's %s" % ((snap["ns"], snap["nc"]), (rec.ns, rec.nc)))
+    nc = rec.nc
+    typ = get("type", lambda: sr.type)
+    if typ not in ("ap", "lf", "nidq", "samples"):
+        raise ImplProblem("reader.type is %r" % (typ,))
+    snap["type"] = typ
+    nsync = get("nsync", lambda: sr.nsync)
+    if isinstance(nsync, bool) or not isinstance(nsync, (int, np.integer)) or not 0 <= int(nsync) <= nc:
+        raise ImplProblem("reader.nsync is %r" % (nsync,))
+    snap["nsync"] = int(nsync)
+    conv = get("channel_conversion_sample2v", lambda: sr.channel_conversion_sample2v)
+    if not isinstance(conv, dict) or typ not in conv:
+        raise ImplProblem("reader.channel_conversion_sample2v is %s without key %r" % (type(conv).__name__, typ))
+    snap["s2v"] = vec("channel_conversion_sample2v[%r]" % typ, conv[typ], nc, "f")
+    snap["sample2volts"] = vec("sample2volts", get("sample2volts", lambda: sr.sample2volts), nc, "f")
+    snap["range_volts"] = vec("range_volts", get("range_volts", lambda: sr.range_volts), nc, "f")
+    has_order = get("raw_channel_order", lambda: hasattr(sr, "raw_channel_order"))
+    snap["order"] = None
+    if has_order:
+        o = vec("raw_channel_order", get("raw_channel_order", lambda: sr.raw_channel_order), nc, "iu")
+        snap["order"] = [int(x) for x in o]
+    g = get("geometry", lambda: sr.geometry)
+    snap["geometry"] = None
+    if g is not None:
+        if not isinstance(g, dict):
+            raise ImplProblem("reader.geometry is %s, not a dict" % type(g).__name__)
+        for k in ("shank", "row", "col"):
+            if k not in g:
+                raise ImplProblem("reader.geometry has no key %r" % k)
+        if not isinstance(g["col"], np.ndarray) or g["col"].ndim != 1:
+            raise ImplProblem("reader.geometry['col'] is not a 1-D ndarray")
+        n = int(g["col"].shape[0])
+        if rec.flat is None and n > nc:
+            raise ImplProblem("reader.geometry has %d sites for %d channels" % (n, nc))
+        snap["geometry"] = {k: vec("geometry[%r]" % k, g[k], n, "fiu") for k in g}
+    if rec.cbin:
+        b = get("_raw.chunk_bounds", lambda: [int(x) for x in sr._raw.chunk_bounds])
+        if len(b) < 2 or b[0] != 0 or b[-1] != rec.ns or any(x > y for x, y in zip(b, b[1:])):
+            raise ImplProblem("compressed reader chunk bounds %s are not 0..ns non-decreasing" % (b[:8],))
+        snap["bounds"] = b
+    return snap
 
 
 def run_impl(sr, case):
@@ -540,13 +659,11 @@ def build_recordings(ctx, tdir):
     recs = []
     # fixtures (full-size channel counts)
     metas = fixture_metas()
-    import spikeglx
     ns_choices = [1, 2, 3, 5, 8, 13, 21, 32, 64]
     for k, m in enumerate(metas):
         text = Path(m).read_text()
-        md = spikeglx.read_meta_data(m)
-        nc = int(md["nSavedChans"])
-        fs = spikeglx._get_fs_from_meta(md)
+        mf = meta_facts(text)
+        nc, fs = mf["nc"], mf["fs"]
         for cbin in (False, True):
             ns = rng.choice(ns_choices[2:])
             label = "fixture:%s" % Path(m).relative_to(common.REPO / "src" / "tests" / "fixtures")
@@ -637,20 +754,9 @@ GEN_CODE = {None: -1, 1: 0, 2: 1, 2.4: 2, "NPultra": 3}
 def order_query(rec, sort):
     """Input of the Coq model's api 3 (raw_channel_order through C08's geometry model), from
     the meta text alone: probe generation, encoding, parsed site table, NP2.4_shank key."""
-    import re
-    import spikeglx
-    md = spikeglx.read_meta_data(rec.meta_file)
-    g = GEN_CODE[spikeglx._get_neuropixel_major_version_from_meta(md)]
-    if "snsShankMap" in md:
-        enc, txt = 0, md["snsShankMap"]
-    elif "snsGeomMap" in md:
-        enc, txt = 1, md["snsGeomMap"]
-    else:
-        enc, txt = 2, ""
-    sites = [[int(float(x)) for x in m.split(":")]
-             for m in re.findall(r"([0-9]*:[0-9]*:[0-9]*:[0-9]*)", txt if isinstance(txt, str) else "")]
-    split = int(md["NP2.4_shank"]) if "NP2.4_shank" in md else -1
-    return [3, g, enc, 1 if sort else 0, split, rec.nc, len(sites)] + [v for st in sites for v in st]
+    mf = meta_facts(rec.meta_file.read_text())
+    return [3, mf["gen"], mf["enc"], 1 if sort else 0, mf["split"], rec.nc, len(mf["sites"])] + \
+        [v for st in mf["sites"] for v in st]
 
 
 def model_orders(ctx, recs, stats):
@@ -668,7 +774,7 @@ def model_orders(ctx, recs, stats):
                 keys[k] = len(queries)
                 queries.append(q)
             rec.model_order[sort] = k
-    outs = common.Extracted(PROP).run_many(queries, nproc=4) if queries else []
+    outs = run_model(ctx, queries)
     for rec in recs:
         for sort, k in list(rec.model_order.items()):
             o = outs[keys[k]]
@@ -677,39 +783,62 @@ def model_orders(ctx, recs, stats):
     return queries, outs
 
 
-def geometry_clauses(ctx, rec, sr, su, sort, desc):
-    """column i of a sorted reader = entry i of its geometry = entry order[i] of the unsorted geometry;
-    (shank,row,-col) non-decreasing; order is a permutation; unsorted reader: identity."""
-    order = [int(x) for x in sr.raw_channel_order]
-    nc = rec.nc
+def s2v_clauses(rec, snap, maxint):
+    """the volts-per-bit observables, all in ON-DISK channel order"""
     bad = []
+    s2v, nc = snap["s2v"], rec.nc
+    if not (s2v.dtype == snap["sample2volts"].dtype and np.array_equal(s2v, snap["sample2volts"])):
+        bad.append("Reader.sample2volts is not channel_conversion_sample2v[type] (volts per bit by on-disk channel)")
+    if rec.flat is None:
+        if not np.array_equal(snap["range_volts"], s2v * maxint):
+            bad.append("Reader.range_volts is not the on-disk volts-per-bit vector times maxint")
+        sync_idx = list(range(nc - snap["nsync"], nc))
+        if snap["type"] in ("ap", "lf") and not all(float(s2v[i]) == 1.0 for i in sync_idx):
+            bad.append("sync channel has a conversion factor different from 1")
+        if rec.exp_s2v is not None and not np.allclose(s2v.astype(np.float64), rec.exp_s2v, rtol=1e-5, atol=0):
+            bad.append("volts-per-bit vector differs from range/maxint/gain of the on-disk channel")
+    else:
+        if not np.array_equal(s2v, np.asarray(rec.exp_s2v)):
+            bad.append("flat reader: volts-per-bit vector is not s2v with 1.0 on the sync channels")
+        if snap["order"] is not None:
+            bad.append("flat reader has a channel order")
+    return bad
+
+
+def geometry_clauses(ctx, rec, snap, snap_u, sort, desc, maxint):
+    """column i of a sorted reader = entry i of its geometry = entry order[i] of the unsorted geometry;
+    (shank,row,-col) non-decreasing; order is a permutation; unsorted reader: identity.
+    Works on validated snapshots only."""
+    nc = rec.nc
+    order = snap["order"]
+    bad = []
+    if order is None:
+        raise ImplProblem("reader has no raw_channel_order")
     if sorted(order) != list(range(nc)):
         bad.append("raw_channel_order is not a permutation of the on-disk channels")
-    exp = expected_order(su.geometry, nc, sort)
+    g, gu = snap["geometry"], snap_u["geometry"]
+    exp = expected_order(gu, nc, sort)
     if order != exp:
         bad.append("raw_channel_order is not the stable (shank,row,-col) order of the on-disk geometry"
                    if sort else "raw_channel_order is not the identity with sort=False")
-    g, gu = sr.geometry, su.geometry
     if (g is None) != (gu is None):
         bad.append("geometry present only with one sort setting")
     elif g is not None:
         n = int(g["col"].size)
-        for k in g:
-            if k == "ind":
-                continue
-            if not np.array_equal(np.asarray(g[k]), np.asarray(gu[k])[order[:n]], equal_nan=True):
-                bad.append("geometry['%s'] entry i is not the on-disk site order[i]" % k)
-        keys = [(float(g["shank"][i]), float(g["row"][i]), -float(g["col"][i])) for i in range(n)]
-        if sort and any(keys[i] > keys[i + 1] for i in range(n - 1)):
-            bad.append("geometry not ordered by shank, row, descending column")
+        if n != int(gu["col"].size) or set(g) != set(gu):
+            bad.append("sorted and unsorted geometry differ in size or keys")
+        elif all(0 <= c < n for c in order[:n]):
+            for k in g:
+                if k == "ind":
+                    continue
+                if not np.array_equal(g[k], gu[k][order[:n]], equal_nan=True):
+                    bad.append("geometry['%s'] entry i is not the on-disk site order[i]" % k)
+            keys = [(float(g["shank"][i]), float(g["row"][i]), -float(g["col"][i])) for i in range(n)]
+            if sort and any(keys[i] > keys[i + 1] for i in range(n - 1)):
+                bad.append("geometry not ordered by shank, row, descending column")
         if order[n:] != list(range(n, nc)):
             bad.append("non-site (sync) columns moved")
-    s2v = sr.channel_conversion_sample2v[sr.type]
-    sync_idx = list(range(nc - sr.nsync, nc))
-    if sr.type in ("ap", "lf") and not all(float(s2v[i]) == 1.0 for i in sync_idx):
-        bad.append("sync channel has a conversion factor different from 1")
-    if rec.exp_s2v is not None and not np.allclose(np.asarray(s2v, dtype=np.float64), rec.exp_s2v, rtol=1e-5, atol=0):
-        bad.append("volts-per-bit vector differs from range/maxint/gain of the on-disk channel")
+    bad += s2v_clauses(rec, snap, maxint)
     for b in bad:
         ctx.fail(b, desc, {"kind": "geometry", "file": "cbin" if rec.cbin else "bin"})
     return exp
@@ -795,66 +924,83 @@ def sync_pair(sr, case, obs):
     return None
 
 
+def guarded(ctx, what, desc, f, tags=None):
+    """Run a harness step that looks at implementation output; an unexpected exception in it is
+    reported as a disagreement with the input (never a traceback / harness crash)."""
+    try:
+        return f()
+    except ImplProblem as e:
+        ctx.fail(str(e), desc, dict(tags or {}, kind="attribute"))
+    except Exception as e:      # noqa
+        tb = traceback.format_exc(limit=4)
+        ctx.disagree("%s: unexpected %s: %s (the implementation returned something the harness cannot "
+                     "interpret)\n%s" % (what, type(e).__name__, e, tb[-600:]), desc, dict(tags or {}, kind="harness"))
+    return None
+
+
 def check_recording(ctx, rec, stats, work):
     rng = ctx.rng
     readers = {}
+    ftag = {"file": "cbin" if rec.cbin else "bin"}
     try:
         for sort in (True, False):
             readers[sort] = rec.open(sort)
     except Exception as e:      # noqa
         ctx.fail("Reader could not open the mock recording: %r" % (e,), describe(rec, None, None),
-                 {"kind": "open", "file": "cbin" if rec.cbin else "bin"})
+                 dict(ftag, kind="open"))
         for r in readers.values():
-            r.close()
+            try:
+                r.close()
+            except Exception:   # noqa
+                pass
         return
     try:
-        su = readers[False]
-        if rec.cbin:
-            rec.bounds = [int(b) for b in readers[True]._raw.chunk_bounds]
+        maxint = meta_facts(rec.text)["maxint"] if rec.flat is None else None
+        snaps = {}
         for sort in (True, False):
-            sr = readers[sort]
-            if (sr.ns, sr.nc) != (rec.ns, rec.nc):
-                ctx.fail("reader shape %s differs from the file's %s" % ((sr.ns, sr.nc), (rec.ns, rec.nc)),
-                         describe(rec, sort, None), {"kind": "shape"})
-                continue
+            snaps[sort] = guarded(ctx, "reading the reader's attributes", describe(rec, sort, None),
+                                  lambda: snapshot(readers[sort], rec), ftag)
+        if snaps[True] is None or snaps[False] is None:
+            return
+        if rec.cbin:
+            rec.bounds = snaps[True]["bounds"]
+        for sort in (True, False):
+            sr, snap = readers[sort], snaps[sort]
+            desc0 = describe(rec, sort, None)
+            s2v = snap["s2v"]
             if rec.flat is not None:
                 if sort is False:
                     continue                      # no geometry, sort has no effect
                 exp_order = list(range(rec.nc))
                 order = exp_order
-                bad = []
-                if hasattr(sr, "raw_channel_order"):
-                    bad.append("flat reader has a channel order")
-                s2v = np.asarray(sr.channel_conversion_sample2v[sr.type])
-                if not np.array_equal(s2v, np.asarray(rec.exp_s2v)):
-                    bad.append("flat reader: volts-per-bit vector is not s2v with 1.0 on the sync channels")
-                for b in bad:
-                    ctx.fail(b, describe(rec, sort, None), {"kind": "flat"})
+                for b in s2v_clauses(rec, snap, None):
+                    ctx.fail(b, desc0, {"kind": "flat"})
             else:
-                exp_order = geometry_clauses(ctx, rec, sr, su, sort, describe(rec, sort, None))
-                impl_order = [int(x) for x in sr.raw_channel_order]
+                exp_order = guarded(ctx, "geometry clauses", desc0,
+                                    lambda: geometry_clauses(ctx, rec, snap, snaps[False], sort, desc0, maxint), ftag)
+                if exp_order is None:
+                    continue
+                impl_order = snap["order"]
                 q, order = rec.model_order[sort]
                 if order is None:
                     ctx.disagree("meta outside the geometry model's domain (model returned None)",
-                                 describe(rec, sort, None), {"kind": "order"})
+                                 desc0, {"kind": "order"})
                     order = impl_order
                 elif order != impl_order:
-                    k = next(i for i, (a, b) in enumerate(zip(order, impl_order)) if a != b)
+                    k = next((i for i, (a, b) in enumerate(zip(order, impl_order)) if a != b), 0)
                     ctx.disagree("raw_channel_order: implementation and Coq model (C08 geometry index + "
                                  "reader_order) differ at column %d (model %s, implementation %s)" % (
-                                     k, order[k:k + 4], impl_order[k:k + 4]),
-                                 describe(rec, sort, None), {"kind": "order"})
+                                     k, order[k:k + 4], impl_order[k:k + 4]), desc0, {"kind": "order"})
                 stats["order_compared"] += 1
-            s2v = np.asarray(sr.channel_conversion_sample2v[sr.type])
             noninv = any(order[order[j]] != j for j in range(rec.nc))
-            nonuni = len(set(float(x) for x in s2v[:rec.nc - (sr.nsync or 0)])) > 1
+            nonuni = len(set(float(x) for x in s2v[:rec.nc - snap["nsync"]])) > 1
             stats["readers_noninvolutive_order"] += noninv
             stats["readers_noninvolutive_order_and_nonuniform_gains"] += noninv and nonuni
             stats["max_ns"] = max(stats["max_ns"], rec.ns)
             stats["max_chunks"] = max(stats["max_chunks"], len(rec.bounds) - 1)
             if getattr(rec, "structured", False) and sort and not noninv:
-                ctx.disagree("harness: structured layout did not give a non-involutive order", describe(rec, sort, None))
-            # the whole calibrated array in the order the property promises
+                ctx.disagree("harness: structured layout did not give a non-involutive order", desc0)
+            # the whole calibrated array in the order the property promises (gains by ON-DISK channel)
             CS = rec.D.astype(np.float32)[:, exp_order]
             CS = (CS.astype(s2v.dtype) * s2v[exp_order]).astype(np.float32)
             if rec.sweep:
@@ -868,38 +1014,57 @@ def check_recording(ctx, rec, stats, work):
                     # read_samples / read(sync=True) need the meta (read_sync; see notes F-C01-e): not used here
                     cases = [c for c in cases if c["api"] != "read_samples"]
             for case in cases:
-                obs = run_impl(sr, case)
-                stats["api"][case["api"]] = stats["api"].get(case["api"], 0) + 1
-                stats["outcome"][obs[0] if obs[0] != "err" else obs[1]] = \
-                    stats["outcome"].get(obs[0] if obs[0] != "err" else obs[1], 0) + 1
-                for s in case["sels"][:2]:
-                    kind = s[0] if s[0] != "slice" else ("slice_neg" if (s[3] or 1) < 0 else "slice")
-                    stats["selector"][kind] = stats["selector"].get(kind, 0) + 1
-                stats["file"]["cbin" if rec.cbin else "bin"] += 1
-                stats["sorted" if sort else "unsorted"] += 1
-                if in_property_domain(rec, case):
-                    why = oracle(rec, CS, obs, case)
-                    stats["oracle_evaluations"] += 1
-                    if why:
-                        ctx.fail(why + " — " + call_str(case), describe(rec, sort, case),
-                                 {"kind": "read", "file": "cbin" if rec.cbin else "bin", "api": case["api"],
-                                  "selector": selector_class(rec, case)})
-                if model_eligible(rec, case):
-                    work.append((rec, sort, case, obs, s2v, enc_case(rec, order, case)))
-                if rec.flat is None and case["api"] in ("read", "read_samples") and rng.random() < 0.35:
-                    why = sync_pair(sr, case, obs)
-                    stats["sync_pair_checks"] += 1
-                    if why:
-                        ctx.fail(why + " — " + call_str(case), describe(rec, sort, case),
-                                 {"kind": "sync_pair", "file": "cbin" if rec.cbin else "bin", "api": case["api"]})
-                if obs[0] == "ok" and obs[3] is not None and obs[3].size >= 2:
-                    stats["nontrivial"].add((rec.label, rec.cbin, sort, call_str(case)))
+                do_sync = rec.flat is None and case["api"] in ("read", "read_samples") and rng.random() < 0.35
+                guarded(ctx, "examining " + call_str(case), describe(rec, sort, case),
+                        lambda: one_case(ctx, rec, sr, sort, case, CS, s2v, order, do_sync, stats, work), ftag)
     finally:
         for r in readers.values():
             try:
                 r.close()
             except Exception:   # noqa
                 pass
+
+
+def one_case(ctx, rec, sr, sort, case, CS, s2v, order, do_sync, stats, work):
+    obs = run_impl(sr, case)
+    ftag = {"file": "cbin" if rec.cbin else "bin"}
+    stats["api"][case["api"]] = stats["api"].get(case["api"], 0) + 1
+    out = obs[0] if obs[0] != "err" else obs[1]
+    stats["outcome"][out] = stats["outcome"].get(out, 0) + 1
+    for s in case["sels"][:2]:
+        kind = s[0] if s[0] != "slice" else ("slice_neg" if (s[3] or 1) < 0 else "slice")
+        stats["selector"][kind] = stats["selector"].get(kind, 0) + 1
+    stats["file"][ftag["file"]] += 1
+    stats["sorted" if sort else "unsorted"] += 1
+    if in_property_domain(rec, case):
+        why = oracle(rec, CS, obs, case)
+        stats["oracle_evaluations"] += 1
+        if why:
+            ctx.fail(why + " — " + call_str(case), describe(rec, sort, case),
+                     dict(ftag, kind="read", api=case["api"], selector=selector_class(rec, case)))
+    if model_eligible(rec, case):
+        work.append((rec, sort, case, obs, s2v, enc_case(rec, order, case)))
+    if do_sync:
+        why = sync_pair(sr, case, obs)
+        stats["sync_pair_checks"] += 1
+        if why:
+            ctx.fail(why + " — " + call_str(case), describe(rec, sort, case),
+                     dict(ftag, kind="sync_pair", api=case["api"]))
+    if obs[0] == "ok" and obs[3] is not None and obs[3].size >= 2:
+        stats["nontrivial"].add((rec.label, rec.cbin, sort, call_str(case)))
+
+
+def run_model(ctx, inputs, nproc=4):
+    """The extracted model on all inputs.  The binary may be in the middle of a rebuild by a
+    concurrent check (exec fails with 'Permission denied' / 'Text file busy'): retry."""
+    last = None
+    for attempt in range(6):
+        try:
+            return common.Extracted(PROP).run_many(inputs, nproc=nproc) if inputs else []
+        except Exception as e:      # noqa
+            last = e
+            time.sleep(3 + 4 * attempt)
+    raise RuntimeError("the extracted model could not be run after 6 attempts: %s" % (last,))
 
 
 def run(ctx):
@@ -923,9 +1088,12 @@ def run(ctx):
         shutil.rmtree(tdir, ignore_errors=True)
     # ---- model on every eligible case (extracted), implementation compared cell by cell
     inputs = [w[5] for w in work]
-    model_out = common.Extracted(PROP).run_many(inputs, nproc=4)
+    model_out = run_model(ctx, inputs)
     for (rec, sort, case, obs, s2v, _), out in zip(work, model_out):
-        why = compare_model(rec, s2v, obs, decode_model(out))
+        try:
+            why = compare_model(rec, s2v, obs, decode_model(out))
+        except Exception as e:      # noqa
+            why = "comparison impossible (%s: %s)" % (type(e).__name__, e)
         if why:
             ctx.disagree("model and implementation differ: %s — %s" % (why, call_str(case)),
                          describe(rec, sort, case),
@@ -983,18 +1151,29 @@ def replay(ctx, data):
                           ).reshape(inp["ns"], inp["nc"]).copy()
         rec = Recording(tdir, "replay", inp["meta_text"], inp["fs"], inp["ns"], inp["nc"], D, inp["cbin"],
                         inp["chunk"], inp["label"], flat=inp.get("flat"))
-        sr, su = rec.open(inp["sort"]), rec.open(False)
+        rec.text, rec.exp_s2v = inp["meta_text"], None
+        try:
+            sr, su = rec.open(inp["sort"]), rec.open(False)
+            snap, snap_u = snapshot(sr, rec), snapshot(su, rec)
+        except Exception as e:      # noqa
+            print("the reader cannot be opened / examined: %s: %s" % (type(e).__name__, e))
+            return 1
         if rec.cbin:
-            rec.bounds = [int(b) for b in sr._raw.chunk_bounds]
-        s2v = np.asarray(sr.channel_conversion_sample2v[sr.type])
+            rec.bounds = snap["bounds"]
+        s2v = snap["s2v"]
+        attr_bad = []
         if rec.flat is not None:
             order = exp_order = list(range(rec.nc))
         else:
-            impl_order = [int(x) for x in sr.raw_channel_order]
-            o = common.Extracted(PROP).run_many([order_query(rec, inp["sort"])], nproc=1)[0]
+            attr_bad = s2v_clauses(rec, snap, meta_facts(rec.text)["maxint"])
+            impl_order = snap["order"] or []
+            o = run_model(ctx, [order_query(rec, inp["sort"])], nproc=1)[0]
             order = o[1:] if o and o[0] == 1 else impl_order
             print("raw_channel_order: model == implementation:", order == impl_order)
-            exp_order = expected_order(su.geometry, rec.nc, inp["sort"])
+            exp_order = expected_order(snap_u["geometry"], rec.nc, inp["sort"])
+            if impl_order != exp_order:
+                attr_bad.append("raw_channel_order is not the (shank,row,-col) order of the on-disk geometry")
+        print("reader attribute clauses failing:", attr_bad or "none")
         CS = rec.D.astype(np.float32)[:, exp_order]
         CS = (CS.astype(s2v.dtype) * s2v[exp_order]).astype(np.float32)
         obs = run_impl(sr, case)
@@ -1005,17 +1184,20 @@ def replay(ctx, data):
         print("property oracle (NumPy indexing of the calibrated array):", why or "holds")
         dis = None
         if model_eligible(rec, case):
-            out = common.Extracted(PROP).run_many([enc_case(rec, order, case)], nproc=1)[0]
+            out = run_model(ctx, [enc_case(rec, order, case)], nproc=1)[0]
             dis = compare_model(rec, s2v, obs, decode_model(out))
             print("model:", out[:12], "->", dis or "agrees with the implementation")
         if rec.flat is None and case["api"] in ("read", "read_samples"):
             sp = sync_pair(sr, case, obs)
             print("read(sync=True) pair:", sp or "consistent with read(sync=False) and read_sync")
             why = why or sp
-        if rec.flat is None and order != [int(x) for x in sr.raw_channel_order]:
+        if rec.flat is None and order != snap["order"]:
             dis = dis or "channel order differs"
         sr.close()
         su.close()
-        return 1 if (why or dis) else 0
+        return 1 if (why or dis or attr_bad) else 0
+    except Exception as e:      # noqa
+        print("replay could not be completed: %s: %s" % (type(e).__name__, e))
+        return 1
     finally:
         shutil.rmtree(tdir, ignore_errors=True)
